@@ -120,9 +120,48 @@ func vfE4Identify(r *vfRand, body []byte, noneg bool, hist map[string]int) []byt
 	return buf.Bytes()
 }
 
+// a well-formed but hostile peer: identifies properly (possibly claiming the bystander's node
+// address), then works on the bystander's topics and channels, then misbehaves or just leaves.
+func vfE4GenTargeted(r *vfRand, hist map[string]int) ([]byte, []string) {
+	var buf bytes.Buffer
+	buf.WriteString("  V1")
+	body := vfE4IdentifyBody([]byte(vfE4Pick(r, []string{"hA", "hX"})), []byte("nX"), []byte("v9"), 4150, 4151)
+	buf.WriteString("IDENTIFY\n")
+	binary.Write(&buf, binary.BigEndian, int32(len(body)))
+	buf.Write(body)
+	names := [][2]string{{"t", "c"}, {"e#ephemeral", "d#ephemeral"}, {"t", ""}, {"e#ephemeral", ""}, {"t", "d#ephemeral"}, {"x1", ""},
+		{"t", "bad!"}, {"x1", strings.Repeat("n", 65)}, {"bad!", ""}, {"t", "#ephemeral"}}
+	n := 1 + r.Intn(4)
+	for i := 0; i < n; i++ {
+		tc := names[r.Intn(len(names))]
+		cmd := "UNREGISTER"
+		if r.Intn(3) == 0 {
+			cmd = "REGISTER"
+		}
+		line := cmd + " " + tc[0]
+		if tc[1] != "" {
+			line += " " + tc[1]
+		}
+		buf.WriteString(line + "\n")
+	}
+	switch r.Intn(4) {
+	case 0:
+		buf.WriteString("IDENTIFY\n")
+	case 1:
+		buf.WriteString("BOGUS\n")
+	case 2:
+		buf.WriteString("UNREGISTER t c")
+	}
+	hist["stream:targeted"]++
+	return buf.Bytes(), []string{vfE4Decode(body)}
+}
+
 func vfE4GenStream(r *vfRand, noneg bool, hist map[string]int) ([]byte, []string) {
 	var buf bytes.Buffer
 	var dec []string
+	if r.Intn(5) == 0 {
+		return vfE4GenTargeted(r, hist)
+	}
 	switch r.Intn(12) {
 	case 0:
 		buf.Write([]byte(vfE4Pick(r, []string{"  V2", "V1  ", "\x00\x00\x00\x00", " V1\n", "GET ", "  v1"})))
